@@ -75,6 +75,9 @@ def r17_2(ctx, rep, sel):
                 return T.R("rnd%d" % t[3]) if t[3] is not None else None
             if nm == "contains" and t[2] and t[2][0] == SEEDS:
                 return T.R("sampled_is_seed")
+            if t[1] == "fused:any" and len(t[2]) == 2 and t[2][1][0] == "call" and sym.strip_all_generics(t[2][1][1]).split("::")[-1] == "contains" \
+                    and t[2][1][2] and T.resolve_locals(eng, {}, t[2][1][2][0]) in (SEEDS, ("ptr", ("S", "seeds"), ())):
+                return T.R("sampled_is_seed")        # nodes.iter().any(|id| seeds.contains(id))
         return None
     # discover the random draws used
     atoms = []
